@@ -1,4 +1,4 @@
-import OsacaVerif.Lemmas.A64Ident
+import OsacaVerif.Lemmas.A64Float
 /-
   Register lists `{v0.4s, v1.4s}[1]` and ranges `{v0.4s - v3.4s}`: the grammar level.
 -/
